@@ -167,6 +167,7 @@ class World:
         self.vec2 = g(nf, N2, 2)
         self.vec3 = g(nf, N3, 3)
         self.ten2 = g(nf, N2, 2, 2)
+        self.cvec3 = g(nf, N3, 3) + 1j * g(nf, N3, 3)
         self.qv2 = np.array([[1, 0], [0, 1], [1, 1], [2, 0], [0, 2]], dtype=np.int64)
         self.qv3 = np.array([[1, 0, 0], [0, 1, 0], [0, 0, 1], [1, 1, 0]], dtype=np.int64)
         self.sigmas2 = np.array([[1.0, 1.2], [1.2, 1.4]])
@@ -259,7 +260,7 @@ def entries():
     # ---- g(r)
     for cname, (arr, ct, pp, sn) in {"bool": ("bool3", None, "ppp3", "s3"), "scalar": ("scal3", None, "ppp3", "s3"),
                                      "complex": ("cplx2", None, "ppp2", "s2"), "vector": ("vec3", "vector", "ppp3", "s3"),
-                                     "tensor": ("ten2", "tensor", "ppp2", "s2")}.items():
+                                     "cvector": ("cvec3", "vector", "ppp3", "s3"), "tensor": ("ten2", "tensor", "ppp2", "s2")}.items():
         def mk(arr=arr, ct=ct, pp=pp, sn=sn):
             def b(W, o):
                 S = getattr(W, sn)
@@ -283,6 +284,11 @@ def entries():
     def _(W, o):
         f = o + ".csv"
         return Call(lambda: _m("static.gr").gr(W.sk[3], W.ppp3, 0.1, f).getresults(), files=[(f, "csv", ident, 6)])
+
+    @reg("static.gr.gr.getresults")
+    def _(W, o):
+        f = o + ".csv"
+        return Call(lambda: _m("static.gr").gr(W.sk[1], W.ppp3, 0.1, f).getresults(), files=[(f, "csv", ident, 6)])
 
     @reg("static.gr.gr.getresults")
     def _(W, o):
